@@ -138,6 +138,7 @@ pub fn run(tier: &str, seed: u64, replay: Option<String>) -> i32 {
     let mut n_single = 0usize;
     let mut n_multi = 0usize;
     let mut n_hist = 0usize;
+    let mut n_nonfinite = 0usize;
     for b in &bases {
         let v = match crate::panics::contain(|| crate::engines::model::base_value(b)) {
             Ok(v) => v,
@@ -260,6 +261,39 @@ pub fn run(tier: &str, seed: u64, replay: Option<String>) -> i32 {
                 n_hist += 1;
             }
         }
+        // a number of the model is not finite (1e39 loads as +inf in an f32 field), alone and
+        // together with a broken link of the same or another element: the warnings that come
+        // with the indicators must still be the checker's
+        {
+            let mut nums: Vec<String> = vec![];
+            closure::walk_numbers(&v, &mut String::new(), &mut |p, _| {
+                if (p.starts_with("/walls/") || p.starts_with("/windows/") || p.starts_with("/shades/") || p.starts_with("/thermal_bridges/") || p.starts_with("/spaces/"))
+                    && !p.ends_with("/l")
+                {
+                    nums.push(p.to_string());
+                }
+            });
+            let n = if thorough { 60 } else { 10 };
+            for k in 0..n {
+                if nums.is_empty() || !small {
+                    break;
+                }
+                let np = rng.pick(&nums).clone();
+                let val = if k % 2 == 0 { 1e39 } else { -1e39 };
+                let mut edits = vec![MEdit::SetValue { ptr: np.clone(), value: json!(val) }];
+                if k % 3 != 0 && !links.is_empty() {
+                    // prefer a link of the same element
+                    let elem = np.splitn(4, '/').take(3).collect::<Vec<_>>().join("/");
+                    let same: Vec<&String> = links.iter().filter(|l| l.starts_with(&format!("{}/", elem))).collect();
+                    let lp = if !same.is_empty() && k % 3 == 1 { (*rng.pick(&same)).clone() } else { rng.pick(&links).clone() };
+                    edits.push(MEdit::IdRedirected { ptr: lp, to: "fresh".into() });
+                }
+                let st = json!({"base": b, "edits": edits, "what": "nonfinite"});
+                ind_steps.push(st.clone());
+                steps.push(st);
+                n_nonfinite += 1;
+            }
+        }
         if !links.is_empty() {
             let h1 = json!({"base": b, "edits": [MEdit::IdRedirected{ptr: links[0].clone(), to: "fresh".into()}, MEdit::ArrayDuplicated{ptr: "/walls".into()}], "what": "history"});
             let h2 = json!({"base": b, "edits": [MEdit::IdRedirected{ptr: links[links.len()-1].clone(), to: "nil".into()}, MEdit::ArrayDuplicated{ptr: "/windows".into()}], "what": "history"});
@@ -344,6 +378,7 @@ pub fn run(tier: &str, seed: u64, replay: Option<String>) -> i32 {
     extra.insert("single_link_faults".into(), json!(n_single));
     extra.insert("multi_fault_sets".into(), json!(n_multi));
     extra.insert("edit_histories".into(), json!(n_hist));
+    extra.insert("nonfinite_number_steps".into(), json!(n_nonfinite));
     extra.insert("steps_comparing_indicator_warnings".into(), json!(ind_steps.len()));
     extra.insert("fault_kinds_fired".into(), json!(fired));
     extra.insert("step_classes".into(), json!(classes));
@@ -358,7 +393,7 @@ pub fn run(tier: &str, seed: u64, replay: Option<String>) -> i32 {
         level: "fault_enumeration".into(),
         evaluations,
         distinct_nontrivial: broken_sets,
-        rule: "for the 7 shipped models, the 12 converted projects and the minimal editor-built models: every link of the five checked kinds redirected to a fresh id, the nil id and the first id of every other collection of the model, every non-zero bridge length negated (singles, all of them in both tiers); seeded sets of 2..20 simultaneous faults; edit histories (every space / construction / wall deleted, collections emptied, walls or windows duplicated after a fault). Ground truth is recomputed from the loaded model after the edits (multiset of ids whose target is absent + bridges with l<0) and compared with the multiset of ids in check(); also check() must not change as_json() and energy_indicators().warnings must equal check(). Non-trivial = the loaded model has at least one broken link; distinct by content hash".into(),
+        rule: "for the 7 shipped models, the 12 converted projects and the minimal editor-built models: every link of the five checked kinds redirected to a fresh id, the nil id and the first id of every other collection of the model, every non-zero bridge length negated (singles, all of them in both tiers); seeded sets of 2..20 simultaneous faults; edit histories (every space / construction / wall deleted, collections emptied, walls or windows duplicated after a fault); seeded steps in which a geometry / position / psi number is +-1e39 (infinite once loaded), alone or with a broken link. Ground truth is recomputed from the loaded model after the edits (multiset of ids whose target is absent + bridges with l<0) and compared with the multiset of ids in check(); also check() must not change as_json() and energy_indicators().warnings must equal check(). Non-trivial = the loaded model has at least one broken link; distinct by content hash".into(),
         samples,
         exhaustive: true,
         extra,
